@@ -6,16 +6,16 @@ ROOT = os.path.dirname(os.path.dirname(os.path.abspath(__file__)))
 
 CHECKS = {
  "C08": dict(cat="exploration", tech="panic/fatal-error monitor over child processes, logical step counter (Go coverage counters) on scaled families, error-reporting consistency monitor",
-   text="Every entry point on 10^5-10^6 hostile byte inputs, cooperating module file sets and degenerate protobuf models in child processes (panics recovered, fatal errors attributed through a logged index); logical work of single calls measured as executed basic blocks on ~100 (quick) / ~700 (thorough) scaled families and random mutants against a quadratic budget, a sustained growth-exponent bound and two hang criteria; parser error listener vs. returned error on every DSL input.",
+   text="Every entry point on 10^5-10^6 hostile byte inputs, cooperating module file sets, well-formed manifests with very short hostile entries and degenerate protobuf models (37 degenerations incl. label-like names and nested containers) in child processes; the exported line-lookup helpers on the lines and words of every input (panics recovered, fatal errors attributed through a logged index); logical work of single calls measured as executed basic blocks on ~100 (quick) / ~700 (thorough) scaled families and random mutants against a quadratic budget, a sustained growth-exponent bound and two hang criteria; parser error listener vs. returned error on every DSL input.",
    note="Work bound holds for the families and sizes measured only; 'never hangs' is decided as 'no call exceeded 50x its quadratic step budget'; K1, K5 recognised by family.", ref="5/C08"),
  "C13": dict(cat="exploration", tech="input-snapshot monitor, Go race detector on barrier-started mixed workloads with sequential baseline, cold-vs-warm subprocess histories, cold-start race processes",
-   text="Deep snapshots around every model/file-slice entry point; object-reuse sequences (one builder value, one model edited in place, earlier errors re-inspected, failing calls in between) compared with fresh objects; go test -race over rounds of 12-16 goroutines on shared inputs (10 mixes incl. shared builder, non-module files, renders after failed calls) with result comparison and overlap counting; one fresh -race process per entry-point family whose first calls are concurrent (lazy initialisation); per-probe result hashes equal across cold, warmed, reversed, look-alike and history-prefixed processes.",
+   text="Deep snapshots around every model/file-slice entry point (protobuf equality, slice order, element identity and the Go object graph: pointer addresses, nil-ness, slice headers, scalars of all exported fields); object-reuse sequences (one builder value, one model edited in place, earlier errors re-inspected, failing calls in between) compared with fresh objects; go test -race over rounds of 12-16 goroutines on shared inputs (11 mixes incl. shared builder, non-module files, many files of which several are broken, renders after failed calls); a workload process that dies in repository code is a violation with result comparison and overlap counting; one fresh -race process per entry-point family whose first calls are concurrent (lazy initialisation); per-probe result hashes equal across cold, warmed, reversed, look-alike and history-prefixed processes.",
    note="The race detector only sees interleavings that happened (overlapping pairs are reported in evidence); histories are sampled.", ref="5/C13"),
  "C15": dict(cat="exploration", tech="path-safety predicate + must-accept/must-reject classes over exhaustive and styled manifests with writer-recorded positions",
-   text="Every string over the 15-letter alphabet up to length 5 (quick) / 6 (thorough), with and without suffix, plus styled multi-entry manifests and manifests whose contents / schema / entry is an alias or arrives through a merge key; safety of every returned path, error counts, verbatim/order, and positions are checked.",
+   text="Every string over the 15-letter alphabet up to length 5 (quick) / 6 (thorough), with and without suffix, plus styled multi-entry manifests (quoting styles, anchors, tags, CRLF, blank and comment lines before and between entries) and manifests whose contents / schema / entry is an alias or arrives through a merge key; safety of every returned path, error counts, verbatim/order, and positions are checked.",
    note="Trusted: own percent decoder and YAML writer; entries with a '../' substring but no '..' segment may be answered either way (DESIGN 5/C15).", ref="5/C15"),
  "C17": dict(cat="exploration", tech="reference-structure monitor (plain mode, edges flipped), reversal / DOT / path-duality monitors, cross-process DOT comparison",
-   text="Plain graph compared with the reference structure; Reversed() must flip lines and direction only; DOT stable across double reversal, rebuilds and fresh processes; label lookup and path queries against reference reachability for all label pairs; cycle flags through a hook, in both directions (a reported compile-time cycle needs a cycle of computed usersets only).",
+   text="Plain graph compared with the reference structure; Reversed() must flip lines and direction only; DOT stable across double reversal, rebuilds and fresh processes; label lookup and path queries against reference reachability for all label pairs; cycle flags through a hook, in both directions (a reported compile-time cycle needs a cycle of computed usersets only) and equal on the reversed graph.",
    note="Operator nodes are matched through gonum node ids (creation order); cycle queries only on models with <= 12 nodes on cycles.", ref="5/C17"),
  "C18": dict(cat="exploration", tech="decomposition-predicate monitor over exhaustive class-representative strings, boundary lengths and random Unicode; run-time constants vs. JS/Java source strings",
    text="All strings up to length 3 over 16 representatives plus length 4 over 9 classes (quick) / length 5 (thorough), boundary lengths around every limit with 1- to 4-byte characters, long mixed-width strings, every code point below U+0180 in every slot of type / id / relation, random Unicode, through all 9 validators and the predicate (soundness and completeness); the single-field validators compared with the shared rule strings evaluated directly; rule strings compared with the JS and Java sources.",
@@ -45,7 +45,7 @@ CHECKS = {
    text="Output bytes compared across repeats, overlapping calls on one model, shuffled JSON encodings and type orders; order of types/relations/conditions/parameters checked against the documented rule; source-info variant stripped of comments must equal the plain output and parse to the same model.",
    note="Trusted: order predicate written from the documentation; K4 (line break in a file name) recognised by its signature.", ref="5/C14"),
  "C16": dict(cat="exploration", tech="position monitors: bounds on every reported position, exact renderer marks for listener errors, declaration-site sets for merge conflicts (bug-compatible oracle for K2)",
-   text="Bounds of every position in every error for 10^4-10^5 rejected inputs; exact position for 5 injection kinds under random layouts; merge-conflict file+line against the set of declaration sites, deviations equal to the naive lookup counted as known finding K2.",
+   text="Bounds of every position in every error for 10^4-10^5 rejected inputs; exact position for 5 injection kinds under random layouts; merge-conflict file+line against the set of declaration sites (also the same clash in two files), column range on the declared name, deviations equal to the naive lookup counted as known finding K2.",
    note="Trusted: renderer marks; K2 signature = reported line equals first-prefix-match lookup.", ref="5/C16"),
  "C04": dict(cat="exploration", tech="reference-model monitor (fixpoint reach sets + longest walk) over real Build, repeated and under hook-enumerated start orders",
    text="Every node and edge weight map of every accepted build (also after a second AssignWeights) is compared with an independent reference model on 10^4-10^5 generated models x (repeated builds + enumerated depth-first start orders); weight keys are compared with the reach sets even when the builder wrongly accepts; held on what was observed, not a proof.",
